@@ -212,7 +212,6 @@ func c10FatRead(kind, L, bpc, N int, lanes uint) {
 
 	vp.Unwind(L + 3)
 	vp.NoPanic()
-	vp.KnownPanic("KF-C10-1", "fat12/file.go:158")
 	n, err := fl.Read(b)
 	vp.AllowPanic()
 
@@ -310,7 +309,6 @@ func c10FatGeometry(bpc int) {
 
 	vp.Unwind(5)
 	vp.NoPanic()
-	vp.KnownPanic("KF-C10-1", "fat12/file.go:158")
 	n, err := fl.Read(buf[:k])
 	vp.AllowPanic()
 
@@ -489,7 +487,6 @@ func VP_C10_fat_sequence_vs_bytes_reader() {
 		kf1 := inCl != 0 && cur < int64(size) && rem < int64(k) && rem < bpc-inCl
 		vp.Unwind(L + 3)
 		vp.NoPanic()
-		vp.KnownPanic("KF-C10-1", "fat12/file.go:158")
 		n1, r1 := fl.Read(b1[:k])
 		vp.AllowPanic()
 		vp.Unwind(16)
